@@ -280,6 +280,29 @@ fn nt_c10(s: &Stats) -> bool {
     s.get("corrupt_nontrivial") >= 1
 }
 
+fn p_c11() -> Profile {
+    let mut p = Profile::base();
+    p.blob = Tri::Maybe;
+    p.filter_fn = Tri::Never;
+    p.max_ops = 45;
+    p.w[W_SCAN] = 6;
+    p.w[W_PREFIX] = 2;
+    p.w[W_SNAP_OPEN] = 3;
+    p.w[W_SNAP_CLOSE] = 1;
+    p.w[W_INGEST] = 2;
+    p.w[W_DROP_RANGE] = 0;
+    p.w[W_REOPEN] = 3;
+    p
+}
+
+fn nt_c11(s: &Stats) -> bool {
+    s.get("multi_configs_differ_in_3_knobs") >= 1 && s.get("multi_fd_table_under_pressure") >= 1
+}
+
+fn nt_c06(s: &Stats) -> bool {
+    s.get("conc_nontrivial") >= 1
+}
+
 fn nt_c05(s: &Stats) -> bool {
     s.get("crash_images_with_pending_effects") >= 1
 }
@@ -343,8 +366,8 @@ pub fn all_props() -> Vec<PropDef> {
             engine: EngineKind::Seq,
             level: "exploration",
             decisive: &["point"],
-            quick_runs: 6000,
-            thorough_runs: 80000,
+            quick_runs: 5000,
+            thorough_runs: 60000,
             rule: "one run = one generated history (config swarm x op mix x keys) executed sequentially against the real tree and the map model; after every step get/contains_key/size_of of every universe key and never-written neighbours are compared at visible_seqno and SeqNo::MAX. Non-trivial: >=2 flushes, >=1 merge that changed the table set, and data below L0; distinct by event-log digest.",
             profile: p_c01,
             nontrivial: nt_c01,
@@ -356,8 +379,8 @@ pub fn all_props() -> Vec<PropDef> {
             engine: EngineKind::Seq,
             level: "exploration",
             decisive: &["snapshot"],
-            quick_runs: 5000,
-            thorough_runs: 60000,
+            quick_runs: 4000,
+            thorough_runs: 50000,
             rule: "history with up to 4 live snapshots (S read from visible_seqno); every later maintenance call gets a watermark strictly below every live snapshot; after every step each live snapshot re-reads every key, a full scan, len, first/last against the view frozen when it was opened. Non-trivial: a snapshot was re-read while it resolved to a non-latest super version.",
             profile: p_c02,
             nontrivial: nt_c02,
@@ -369,8 +392,8 @@ pub fn all_props() -> Vec<PropDef> {
             engine: EngineKind::Seq,
             level: "exploration",
             decisive: &["scan"],
-            quick_runs: 5000,
-            thorough_runs: 60000,
+            quick_runs: 4500,
+            thorough_runs: 55000,
             rule: "range/prefix/iter/first/last/len/is_empty with bounds drawn from universe keys, between-key strings, prefixes and 0xFF-terminated strings (incl. empty and inverted), consumed by a drawn next/next_back word, optionally with an overlay memtable, at latest and live snapshots, on layouts produced by flush/compaction histories. Non-trivial: a scan mixed both directions over >=2 items and the version had >=2 runs or a multi-table run.",
             profile: p_c03,
             nontrivial: nt_c03,
@@ -382,8 +405,8 @@ pub fn all_props() -> Vec<PropDef> {
             engine: EngineKind::Seq,
             level: "exploration",
             decisive: &["reopen", "point", "scan"],
-            quick_runs: 4000,
-            thorough_runs: 50000,
+            quick_runs: 2000,
+            thorough_runs: 25000,
             rule: "drop+open at drawn positions of a history; afterwards the dump with sequence numbers equals the model minus unflushed writes, table/blob ids per level and highest persisted seqno are unchanged, id counters are past existing files, and the history continues. Non-trivial: reopen with >=2 populated levels or >=2 L0 runs.",
             profile: p_c04,
             nontrivial: nt_c04,
@@ -395,8 +418,8 @@ pub fn all_props() -> Vec<PropDef> {
             engine: EngineKind::Crash,
             level: "fault_enumeration",
             decisive: &["crash"],
-            quick_runs: 1500,
-            thorough_runs: 6000,
+            quick_runs: 3000,
+            thorough_runs: 5000,
             rule: "one run = one journaled history (create, writes, flush, compactions, clear, drop_range, ingest, reopen; standard and blob); one evaluation = one crash image = (journal prefix k, persistence outcome) on which the real recovery is executed in a forked process and the recovered content (values and seqnos) is compared with the durable logical content before/after the in-flight operation, then a write+flush must work, and with probability 1/4 a second crash during that recovery is injected. quick: 10 sampled prefixes (80% inside an operation) x {strict, lucky, ordered-prefix, 2 random permissive with torn writes}; thorough: every prefix x {strict, lucky, ordered-prefix, 4 random}. Non-trivial/distinct: distinct image content hashes among images for which unsynced effects were pending at the crash point.",
             profile: p_c05,
             nontrivial: nt_c05,
@@ -404,12 +427,25 @@ pub fn all_props() -> Vec<PropDef> {
             technique: "deterministic simulation: libc-level journal -> crash-image enumeration -> real recovery",
         },
         PropDef {
+            id: "C06",
+            engine: EngineKind::Conc,
+            level: "exploration",
+            decisive: &["conc", "deadlock"],
+            quick_runs: 2500,
+            thorough_runs: 30000,
+            rule: "one run = one workload (writer with batches, 1-2 readers taking snapshots from visible_seqno through a snapshot tracker, flusher, 1-3 Leveled compactors, optionally a major_compact/drop_range thread; watermarks strictly below the oldest live snapshot) executed by real threads under one seeded schedule (uniform random or PCT with 1-4 priority change points; file-system-call yield points in half of the runs). Every read is checked afterwards against the model with the in-flight window (a write whose seqno is below the snapshot but which had not returned when the snapshot was read may or may not be visible); no Err, no panic, no deadlock; at quiescence the content equals all acknowledged writes, nothing stays hidden, the structure audit passes, and flush+reopen gives the same content. Non-trivial: >=2 maintenance operations of different threads overlapped in time and >=10 context switches. Distinct interleavings = distinct hashes of the (thread, site class) sequence.",
+            profile: p_c01,
+            nontrivial: nt_c06,
+            final_reclaim: false,
+            technique: "deterministic simulation: seeded baton scheduler over real threads + reference model",
+        },
+        PropDef {
             id: "C07",
             engine: EngineKind::Seq,
             level: "exploration",
             decisive: &["structure"],
-            quick_runs: 5000,
-            thorough_runs: 60000,
+            quick_runs: 4500,
+            thorough_runs: 55000,
             rule: "after every version change the auditor scans every table of the published version: run disjointness/order, recency order across runs for shared keys, metadata (key range, seqno range, counts) vs contents, files exist, version file decodes to the same structure. Non-trivial: version with >=2 L0 runs or a multi-table run.",
             profile: p_c07,
             nontrivial: nt_c07,
@@ -434,8 +470,8 @@ pub fn all_props() -> Vec<PropDef> {
             engine: EngineKind::Seq,
             level: "exploration",
             decisive: &["gc_stats"],
-            quick_runs: 4000,
-            thorough_runs: 50000,
+            quick_runs: 4500,
+            thorough_runs: 55000,
             rule: "after every version change of a blob-tree history the auditor recomputes per blob file garbage = blobs in file - blobs referenced by tables of this version (count, bytes, on-disk bytes) and compares with gc_stats and stale_blob_bytes; no pointer into an absent file; dead files leave within one further merge; stats equal across reopen. Non-trivial: a file with non-zero garbage was checked.",
             profile: p_c09,
             nontrivial: nt_c09,
@@ -447,8 +483,8 @@ pub fn all_props() -> Vec<PropDef> {
             engine: EngineKind::Corrupt,
             level: "fault_enumeration",
             decisive: &["corrupt"],
-            quick_runs: 400,
-            thorough_runs: 600,
+            quick_runs: 1000,
+            thorough_runs: 400,
             rule: "one run = one small tree (standard or blob, drawn block/index/filter/compression settings) built by a fault-free history and closed; one evaluation = one stored-byte fault (a single bit flip at a byte position, or one truncation, of one table / blob / version / current file) followed by a reopen with an empty cache and re-asking every question (get and size_of of every key, forward and backward scan, len, is_empty, at seqno MAX and at a mid seqno); each answer must be Err or the original answer. quick: every byte of `current` and v<N> (1 random bit), stratified positions (head, tail, 24 random) of tables and blob files, ~15 truncation lengths per file; thorough: every byte position of every file (all 8 bits for version files), every truncation length of small files. Outcomes classified same|error|panic|abort|WRONG; only WRONG is a violation. Non-trivial/distinct: attempts whose fault was noticed (outcome other than same).",
             profile: p_c10,
             nontrivial: nt_c10,
@@ -456,12 +492,25 @@ pub fn all_props() -> Vec<PropDef> {
             technique: "deterministic simulation: stored-byte fault enumeration with re-open",
         },
         PropDef {
+            id: "C11",
+            engine: EngineKind::Multi,
+            level: "exploration",
+            decisive: &["multi", "point", "scan", "snapshot", "reopen"],
+            quick_runs: 2500,
+            thorough_runs: 30000,
+            rule: "one run = 2-4 trees with independently drawn configurations (block size, restart interval, hash ratio, index/filter partitioning and pinning, filter policy incl. none and expect_point_read_hits, compression, standard/blob) opened in one process on one shared block cache (0 B, 1 KiB, 64 KiB, 16 MiB) and one shared descriptor table (none, 1, 2, 3, 256), fed one history in lock-step in a drawn order; after every step every tree re-reads every key, a full scan, len, first/last at the newest and at live snapshots, and once more after the other trees have run. evaluations = trees x runs. Non-trivial: configurations differ in >=3 knobs and the descriptor table (capacity <=3) is under pressure from >=2 tables.",
+            profile: p_c11,
+            nontrivial: nt_c11,
+            final_reclaim: false,
+            technique: "deterministic simulation: lock-step trees on shared cache/fd table vs reference model",
+        },
+        PropDef {
             id: "C13",
             engine: EngineKind::Seq,
             level: "exploration",
             decisive: READ_TAGS,
-            quick_runs: 5000,
-            thorough_runs: 60000,
+            quick_runs: 4000,
+            thorough_runs: 50000,
             rule: "single-delete key class cycles insert -> remove_weak under flush/compaction/watermark interleavings; model treats the weak tombstone as a tombstone. Non-trivial: >=1 weak delete and >=1 merge.",
             profile: p_c13,
             nontrivial: nt_c13,
@@ -473,8 +522,8 @@ pub fn all_props() -> Vec<PropDef> {
             engine: EngineKind::Seq,
             level: "exploration",
             decisive: &["point", "snapshot", "scan", "reopen", "ingest"],
-            quick_runs: 4000,
-            thorough_runs: 50000,
+            quick_runs: 3000,
+            thorough_runs: 40000,
             rule: "ingestions of sorted batches (values and tombstones) interleaved with writes issued between ingestion() and finish(), snapshots before/in between/after, flush, compaction, reopen. Non-trivial: ingestion finished while memtables held data, or >=2 ingestions.",
             profile: p_c14,
             nontrivial: nt_c14,
@@ -486,8 +535,8 @@ pub fn all_props() -> Vec<PropDef> {
             engine: EngineKind::Seq,
             level: "exploration",
             decisive: &["point", "snapshot", "scan", "reopen", "drop_range"],
-            quick_runs: 4000,
-            thorough_runs: 50000,
+            quick_runs: 2000,
+            thorough_runs: 25000,
             rule: "drop_range with bounds drawn around table edges (incl. empty/inverted) and clear, with snapshots before and after; keys outside R and earlier snapshots must be unchanged; dropped tables must lie wholly inside R judged from their real first/last key; inside R the model re-synchronises from a physical audit. Non-trivial: a drop_range dropped >=1 table or a clear ran.",
             profile: p_c15,
             nontrivial: nt_c15,
@@ -499,8 +548,8 @@ pub fn all_props() -> Vec<PropDef> {
             engine: EngineKind::Fault,
             level: "fault_enumeration",
             decisive: &["fault", "point", "scan", "snapshot", "reopen"],
-            quick_runs: 1200,
-            thorough_runs: 5000,
+            quick_runs: 4000,
+            thorough_runs: 3000,
             rule: "one run = one history executed fault-free with the file-system calls of its flush/compaction/drop_range/clear/ingest operations counted (n), then re-executed from scratch once per chosen call index i with one fault armed there; one evaluation = one (history, i, kind) with kind in ENOSPC/EIO (must be reported or absorbed, reads unchanged, nothing left hidden, then either the same call succeeds on retry and the history continues against the model, or a reopen yields the state before or after the call) or short write/EINTR (must not fail the operation). quick: 10 sampled i per history; thorough: every i. Non-trivial/distinct: distinct (history, call site, fault kind) at which the fault fired.",
             profile: p_c16,
             nontrivial: nt_c16,
@@ -512,8 +561,8 @@ pub fn all_props() -> Vec<PropDef> {
             engine: EngineKind::Seq,
             level: "exploration",
             decisive: &["point", "snapshot", "scan", "filter"],
-            quick_runs: 4000,
-            thorough_runs: 50000,
+            quick_runs: 3000,
+            thorough_runs: 40000,
             rule: "compaction filter installed from the start; verdict = pure function of (key class, value, salt) over Keep/Remove/Replace(small|large)/RemoveWeak/Destroy (last two only for write-once keys); the filter logs what it is shown and the model applies each verdict to exactly that version. Non-trivial: >=1 non-Keep verdict applied.",
             profile: p_c17,
             nontrivial: nt_c17,
@@ -525,8 +574,8 @@ pub fn all_props() -> Vec<PropDef> {
             engine: EngineKind::Seq,
             level: "exploration",
             decisive: &["seqno"],
-            quick_runs: 4000,
-            thorough_runs: 50000,
+            quick_runs: 4500,
+            thorough_runs: 55000,
             rule: "after every version change get_highest_persisted_seqno is compared with the maximum seqno found by scanning all tables (global seqno applied), get_highest_memtable_seqno with the model's memtable maximum, get_highest_seqno with the max of both, and across reopen. Non-trivial: >=2 audits incl. an ingested table (shifted seqnos) or a merge.",
             profile: p_c18,
             nontrivial: nt_c18,
@@ -538,8 +587,8 @@ pub fn all_props() -> Vec<PropDef> {
             engine: EngineKind::Seq,
             level: "exploration",
             decisive: &["fifo", "point", "scan", "reopen"],
-            quick_runs: 4000,
-            thorough_runs: 50000,
+            quick_runs: 5000,
+            thorough_runs: 60000,
             rule: "append-only monotone keys, flushes at drawn simulated times, FIFO(limit, ttl) with limit/ttl drawn around current size/age under a simulated clock; removed vs retained tables are compared by created_at/expiry, retained keys must read back, also after reopen. Non-trivial: FIFO removed >=1 table.",
             profile: p_c19,
             nontrivial: nt_c19,
@@ -551,8 +600,8 @@ pub fn all_props() -> Vec<PropDef> {
             engine: EngineKind::Seq,
             level: "exploration",
             decisive: &["files"],
-            quick_runs: 4000,
-            thorough_runs: 50000,
+            quick_runs: 4500,
+            thorough_runs: 55000,
             rule: "after every version change: every file named by a retained version or live snapshot exists (readdir), nothing exists that no retained version names, at most one retained version lies below the watermark; after reopen and after a final release-everything phase the directory equals the current version. Non-trivial: final phase reached after >=1 merge.",
             profile: p_c20,
             nontrivial: nt_c20,
